@@ -78,6 +78,14 @@ func (g *Gen) c06Disk(cls, tmpl string, names []string, tuples [][]string, umask
 	g.Case(2, c06B(s...), []int64{int64(len(names)), int64(umask)})
 }
 
+func (g *Gen) c06E2E(cls, tmpl string, names []string, tuples [][]string, mode int) {
+	g.Count("e2e:" + cls)
+	s := []string{tmpl}
+	s = append(s, names...)
+	s = append(s, c06Flat(tuples)...)
+	g.Case(5, c06B(s...), []int64{int64(len(names)), int64(mode)})
+}
+
 func (g *Gen) c06Metric(cls string, names []string, tuples [][]string) {
 	g.Count("metric:" + cls)
 	s := append([]string{}, names...)
@@ -255,6 +263,9 @@ func c06Gen(g *Gen) {
 		all := c06AllTuples(n, c06Alphabet)
 		tmpls := c06Templates(n)
 		for ti, tmpl := range tmpls {
+			if n == 3 && ti > 0 && !g.Thorough() {
+				break
+			}
 			// every tuple in one run (first arrival of each), in enumeration order and shuffled, 1 and 3 sinks
 			g.c06Route("all-tuples", tmpl, names, nil, all, 1, nil)
 			sh := g.c06Shuffle(append(append([][]string{}, all...), all...))
@@ -391,6 +402,44 @@ func c06Gen(g *Gen) {
 				g.c06Route("initial-ids-exhaustive", tmpl, names, []string{id, id}, nil, 1, nil)
 			}
 			g.c06Route("initial-ids-exhaustive", tmpl, names, idAlpha, recs, 2, []int{1, 0})
+		}
+	}
+	// ------------------------------------------------------------------ the whole pipeline, observed at the consumer
+	{
+		g.c06E2E("probe", "$k0-$k1", n2, [][]string{{"ab", "c"}, {"a", "bc"}, {"ab", "c"}}, 0)
+		g.c06E2E("probe", "$k0-$k1", n2, [][]string{{"ab", "c"}, {"a", "bc"}, {"ab", "c"}}, 1)
+		g.c06E2E("probe", "$k0-$k1", n2, [][]string{{"a,b", "c"}, {"a", "b,c"}, {"x", "y"}}, 1)
+		g.c06E2E("probe", "$k0", n1, [][]string{{""}, {"a"}}, 1)
+		g.c06E2E("probe", "$k0", n1, nil, 1)
+		g.c06E2E("probe", "", n1, [][]string{{"a"}}, 0)
+		g.c06E2E("probe", "$k1", n1, [][]string{{"a"}}, 0)
+		for n := 1; n <= 3; n++ {
+			names := c06DefaultNames[:n]
+			all := c06AllTuples(n, c06Alphabet)
+			for ti, tmpl := range c06Templates(n) {
+				if (ti > 1 || (n == 3 && ti > 0)) && !g.Thorough() {
+					break
+				}
+				for mode := 0; mode <= 1; mode++ {
+					g.c06E2E("all-tuples", tmpl, names, all, mode)
+					if n < 3 || g.Thorough() {
+						g.c06E2E("all-tuples-shuffled", tmpl, names, g.c06Shuffle(append(append([][]string{}, all...), all...)), mode)
+					}
+				}
+			}
+			for i, p := range c06CandidatePairs(all) {
+				if n == 3 && i%11 != 0 && !g.Thorough() {
+					continue
+				}
+				g.c06E2E("candidate-pairs", c06Templates(n)[0], names, [][]string{p[0], p[1], p[0]}, i%2)
+			}
+		}
+		g.c06E2E("names", "$a.$ab.$b", []string{"a", "ab", "b"}, c06AllTuples(3, []string{"", "a", "b", "ab"}), 1)
+		for i := 0; i < g.Pick(150, 5000); i++ {
+			n := r.Range(1, 3)
+			group := g.c06RandGroup(n, r.Range(2, 6), false)
+			recs := g.c06Shuffle(append(append([][]string{}, group...), group[:r.Intn(len(group))]...))
+			g.c06E2E("random", r.PickStr(c06Templates(n)), c06DefaultNames[:n], recs, r.Intn(2))
 		}
 	}
 	// ------------------------------------------------------------------ umask / directory mode
